@@ -158,13 +158,16 @@ static Outcome ReaderLeg(RunCtx& ctx, Outcome& out)
 
 	InCfg c = DrawStreamCfg(s, sim::L_IO);
 	sim::InFaults f;
-	if (cut < bytes.size()) f.eofAt = cut;
+	// 1 cut in 4 is a device error instead of an end of file: underflow throws at that byte, istream::read sets badbit WITHOUT eofbit
+	// and delivers what came before. For the reader that is the same end of input (it tests eof() || fail()), so the oracle is the same.
+	const bool devErr = cut < bytes.size() && s.chance(sim::L_FAULT, 1, 4);
+	if (cut < bytes.size()) { if (devErr) f.failAt = cut; else f.eofAt = cut; }
 	ctx.note(std::string("reader leg: enc=") + EncName(enc) + (bom ? "+bom" : "") + " target=" + (width == 0 ? "char" : width == 1 ? "char16_t" : "char32_t") + " chunk=" + std::to_string(chunk)
-		+ " policy=" + (skipPolicy ? "skip" : "throw") + " chars=" + std::to_string(text.size()) + " bytes=" + std::to_string(bytes.size()) + " cut@" + std::to_string(cut) + (cutInsideChar ? " (inside a character)" : "") + " stream=" + c.str());
+		+ " policy=" + (skipPolicy ? "skip" : "throw") + " chars=" + std::to_string(text.size()) + " bytes=" + std::to_string(bytes.size()) + " cut@" + std::to_string(cut) + (devErr ? " (device error, badbit only)" : "") + (cutInsideChar ? " (inside a character)" : "") + " stream=" + c.str());
 	if (ctx.describe) ctx.note("bytes: " + sim::hex(bytes, 200));
 	ctx.count(std::string("enc.") + EncName(enc) + (bom ? "+bom" : ""));
 	ctx.count("encChunk." + std::to_string(chunk));
-	if (cut < bytes.size()) ctx.count("fault.eof");
+	if (cut < bytes.size()) ctx.count(devErr ? "fault.device_error" : "fault.eof");
 
 	sim::SimIStreamBuf sb(bytes, c.seekable, c.delivery, f);
 	sb.SetSeekBeyondFails(c.seekBeyondFails);
@@ -180,7 +183,7 @@ static Outcome ReaderLeg(RunCtx& ctx, Outcome& out)
 	});
 	sim::steps_end();
 	const std::string tags = std::string("leg=reader enc=") + EncName(enc) + (bom ? " bom=1" : " bom=0") + " target=" + std::to_string(width) + " chunk=" + std::to_string(chunk) + (skipPolicy ? " policy=skip" : " policy=throw")
-		+ (cut < bytes.size() ? (cutInsideChar ? " cut=inside" : " cut=boundary") : " cut=none");
+		+ (cut < bytes.size() ? (cutInsideChar ? " cut=inside" : " cut=boundary") : " cut=none") + (devErr ? " fault=device_error" : "");
 	if (!cr.ok) return Violation("WRONG_EXCEPTION", tags, "the encoded stream reader threw " + cr.cat + " (" + cr.what + ")");
 	out.nontrivial = bytes.size() > chunk || cutInsideChar;
 	if (bytes.size() > chunk) sim::probe("text-longer-than-chunk");
@@ -222,6 +225,43 @@ static Outcome ReaderLeg(RunCtx& ctx, Outcome& out)
 			return HexOf(e);
 		};
 		expectHex = width == 0 ? build(char()) : width == 1 ? build(char16_t()) : build(char32_t());
+	}
+	if (devErr)
+	{
+		// Relaxed oracle after a device error (deliberately narrow): libstdc++'s istream::read() catches the exception, sets badbit and
+		// leaves gcount at 0, so the bytes of the failing read() call are lost to the caller - the reader sees the stream end at some
+		// V <= cut that only the completed reads determine. It may therefore lose text and may meet the end inside a character, but it
+		// must stop, must not invent text, and must not report an error and a mark at once.
+		if (!r.endFile && !r.decodeError) return Violation("HANG", tags + " what=no_end", "after a device error (badbit without eofbit) the reader reported neither EndFile nor DecodeError in " + std::to_string(r.chunks) + " calls of ReadChunk");
+		if (r.decodeError && skipPolicy) return Violation("WRONG_VALUE", tags + " what=spurious_error", "DecodeError reported under the Skip policy");
+		std::string base;   // the text of every character that is complete before the cut, in the target encoding
+		std::string mark;
+		if (passThrough) HexAppend(base, bytes.data() + dataStart, cut - dataStart);
+		else
+		{
+			auto all = [&](auto tag)
+			{
+				using TChar = decltype(tag);
+				std::basic_string<TChar> e;
+				for (size_t i = 0; i < completeChars; ++i) RefAppendTarget(e, text[i]);
+				std::basic_string<TChar> m(BitSerializer::Convert::Utf::Detail::GetDefaultErrorMark<TChar>());
+				mark = HexOf(m);
+				return HexOf(e);
+			};
+			base = width == 0 ? all(char()) : width == 1 ? all(char16_t()) : all(char32_t());
+		}
+		std::string got = r.decodedHex;
+		if (base.compare(0, got.size(), got) != 0)
+		{
+			// Skip policy: one error mark may stand at the very end, where the visible input ended inside a character
+			const bool marked = skipPolicy && !mark.empty() && got.size() >= mark.size() && got.compare(got.size() - mark.size(), mark.size(), mark) == 0
+				&& base.compare(0, got.size() - mark.size(), got, 0, got.size() - mark.size()) == 0;
+			if (!marked) return Violation("WRONG_VALUE", tags + " what=text", "text decoded before a device error is not a prefix of the original: " + DiffAt(base, got));
+		}
+		if (r.detected != -1 && r.detected != enc && !got.empty())
+			return Violation("WRONG_VALUE", tags + " what=detection", std::string("detected ") + EncName(r.detected) + " for a stream written in " + EncName(enc));
+		sim::probe("device-error-while-reading");
+		return out;
 	}
 	if (r.detected != -1 && r.detected != enc)
 		return Violation("WRONG_VALUE", tags + " what=detection", std::string("detected ") + EncName(r.detected) + " for a stream written in " + EncName(enc) + (bom ? " with BOM" : " without BOM") + " (first bytes " + sim::hex(bytes, 12) + ")");
